@@ -47,7 +47,7 @@ func c18Gen(t *rapid.T) c18Case {
 	n := rapid.IntRange(1, 6).Draw(t, "nedits")
 	for i := 0; i < n; i++ {
 		c.Edits = append(c.Edits, c18Edit{
-			Kind:   rapid.SampledFrom([]string{"add", "add", "remove", "remove", "remove", "enable", "disable", "rewrite", "dup", "dup", "shuffle"}).Draw(t, "kind"),
+			Kind:   rapid.SampledFrom([]string{"add", "add", "remove", "remove", "remove", "enable", "disable", "rewrite", "dup", "dup", "shuffle", "backup", "rollback", "rollback"}).Draw(t, "kind"),
 			IP:     rapid.IntRange(1, 8).Draw(t, "ip"),
 			Rename: rapid.IntRange(0, 2).Draw(t, "rename") == 0,
 		})
@@ -211,6 +211,13 @@ func c18Exec(c *c18Case) ([]Discrepancy, []string) {
 		}
 		return m
 	}
+	// backup / rollback: an operator keeps a copy of the file and later moves it back over the live one
+	// (the restored file carries its old modification time)
+	bak := file + ".bak"
+	haveBak := false
+	var bakEnable, bakReverse bool
+	var bakSet map[int]bool
+	var bakDups map[int]int
 	round := 0
 	converge := func(what string) []Discrepancy {
 		deadline := time.Now().Add(5 * time.Second)
@@ -271,6 +278,39 @@ func c18Exec(c *c18Case) ([]Discrepancy, []string) {
 			dups[e.IP]++
 		case "shuffle":
 			reverse = !reverse
+		case "backup":
+			// copy the live file aside (no change to the live file)
+			if b, err := os.ReadFile(file); err == nil {
+				os.WriteFile(bak, b, 0o644)
+				haveBak = true
+				bakEnable, bakReverse = enable, reverse
+				bakSet, bakDups = map[int]bool{}, map[int]int{}
+				for k, v := range set {
+					bakSet[k] = v
+				}
+				for k, v := range dups {
+					bakDups[k] = v
+				}
+				time.Sleep(15 * time.Millisecond) // later edits get a later modification time
+			}
+			trace = append(trace, fmt.Sprintf("edit %d (backup copy taken)", i+1))
+			continue
+		case "rollback":
+			if !haveBak {
+				trace = append(trace, fmt.Sprintf("edit %d (rollback without a backup: skipped)", i+1))
+				continue
+			}
+			if err := os.Rename(bak, file); err != nil {
+				harnessProblem("cannot move the backup into place: %v", err)
+			}
+			haveBak = false
+			enable, reverse, set, dups = bakEnable, bakReverse, bakSet, bakDups
+			what := fmt.Sprintf("edit %d (rollback: the backup copy moved back over the file)", i+1)
+			trace = append(trace, what)
+			if ds := converge(what); ds != nil {
+				return ds, trace
+			}
+			continue
 		case "enable":
 			enable = true
 		case "disable":
@@ -297,7 +337,7 @@ func c18Classify(c *c18Case) (bool, []string) {
 	var cls []string
 	for _, e := range c.Edits {
 		cls = append(cls, "edit-"+e.Kind)
-		if e.Kind == "remove" || e.Rename {
+		if e.Kind == "remove" || e.Rename || e.Kind == "rollback" {
 			nt = true
 		}
 		if e.Rename {
